@@ -632,10 +632,15 @@ func parent(spec *Spec, tier string, seed int64, onlyLane, raceBin, asanBin stri
 
 	findings := loadFindings()
 	known := map[string]int{}
+	knownSigs := map[string]map[string]int{} // finding id -> lane/kind/signature of the witnesses it absorbed
 	var unlisted []Violation
 	for i := range viols {
 		if f := matchFinding(findings, &viols[i]); f != nil {
 			known[f.ID+"\x00"+f.What]++
+			if knownSigs[f.ID] == nil {
+				knownSigs[f.ID] = map[string]int{}
+			}
+			knownSigs[f.ID][viols[i].Lane+"/"+viols[i].Kind+"/"+viols[i].Sig]++
 		} else {
 			unlisted = append(unlisted, viols[i])
 		}
@@ -649,6 +654,7 @@ func parent(spec *Spec, tier string, seed int64, onlyLane, raceBin, asanBin stri
 		"per_lane":            perLane,
 		"counters":            counters,
 		"known_finding_hits":  len(viols) - len(unlisted),
+		"known_finding_sigs":  knownSigs,
 		"inconclusive":        inconc,
 	}
 	for k, m := range dist {
